@@ -1,5 +1,5 @@
 """C17 — the multi-flow adaptor is a pure re-expression of the wrapped device."""
-import json
+import json, math
 from fractions import Fraction
 from .. import common as C, gen, build, gen_sets as G
 from ..check import Prop, Op
@@ -35,6 +35,12 @@ def conduit_spec(d, rows, n):
 class C17(Prop):
   id = 'C17'
   lean_module = 'DK.Props.C17'
+  uses_t1 = True      # T1s regenerates DK/Gen/Sets/*.lean from the current source before the bridge is audited
+  bridge_sets = ['DK.BridgeSets.MFDeviceSet_cost', 'DK.BridgeSets.MFDeviceSet_deriv', 'DK.BridgeSets.MFDeviceSet_hess',
+                 'DK.BridgeSets.MFDeviceSet_project', 'DK.BridgeSets.MFDeviceSet_init_bounds',
+                 'DK.BridgeSets.MFDeviceSet_constraints', 'DK.BridgeSets.MFDeviceSet_constraints_ofMF',
+                 'DK.BridgeSets.TwoRatioMFDeviceSet_constraints']      # T1s: set-level glue (vk/translate_sets.py, DK/Lemmas/BridgeSets/*.lean)
+  bridge = bridge_sets
   theorems = ['DK.C17.oneDir_iff', 'DK.C17.mf_cost', 'DK.C17.mf_cost_price', 'DK.C17.mf_deriv', 'DK.C17.mf_deriv_isMGrad',
               'DK.C17.mf_feasible_iff', 'DK.C17.conduit_direction', 'DK.C17.mf_surjective', 'DK.C17.mf_ratio_surjective',
               'DK.C17.mf_pairs_eq', 'DK.C17.mf_cost_image_eq', 'DK.C17.mf_min_eq', 'DK.C17.mf_argmin', 'DK.C04.mf_cons_sat_iff']
@@ -46,6 +52,7 @@ class C17(Prop):
           'non-trivial: >= 2 conduits and the wrapped device has cumulative bounds or constraints')
   sizes = {'quick': 260, 'thorough': 2200}
   assumptions = ['the wrapped device is one-directional (the constructor raises otherwise); k >= 1 conduits',
+                 'glue variants (oracle): Fortran-ordered / strided / integer-typed conduit matrices (integer dtype only where the wrapped device itself is dtype-insensitive at the total flow), (1,n) row prices, Fortran-ordered price matrices, for cost / deriv / hess (closed-form classes) / constraint values / constraint Jacobians; caller arrays unchanged; hess(S) = wrapped hess at the total flow',
                  'projection: the oracle requires shape, conduit bounds and slot totals = wrapped projection of the totals (not an equal split)',
                  'oracle tolerances: 1e-9 relative on costs / marginal costs, 1e-9 absolute slack on membership (1e-7 for the equal split, which divides by k)']
 
@@ -76,6 +83,15 @@ class C17(Prop):
           mats.append([[a + dlt if a >= 0 else a for a in mats[0][0]], list(mats[0][1])])
           mats.append([list(mats[0][0]), [a + dlt if a >= 0 else a for a in mats[0][1]]])
       mats.append(G.split(rng, x, k))
+      # in-box total flows that break exactly one wrapped constraint (one per constraint where found): only that constraint
+      # stands between the conduit matrix and feasibility
+      lbw = [Fraction(v) for v in d['lb']]; hbw = [Fraction(v) for v in d['hb']]
+      seen = set()
+      for _ in range(24):
+        y = gen.gen_flow(rng, lbw, hbw, rng.choice(['interior', 'mixed', 'lower', 'upper']))
+        bad = [j for j, (_, ok) in enumerate(G.dev_clauses(d, y, n, '')) if not ok]
+        if len(bad) == 1 and bad[0] not in seen and len(seen) < 3:
+          seen.add(bad[0]); mats.append(G.split(rng, y, k))
       mats.append([[xi/Fraction(1 << (k - 1).bit_length()) for xi in x] for _ in range(k)] if k & (k - 1) == 0 else G.split(rng, x, k))
       flat = gen.gen_flow(rng, lbx, hbx)
       base = [list(flat[r*n:(r + 1)*n]) for r in range(k)]
@@ -85,6 +101,9 @@ class C17(Prop):
       P[r][i] = -P[r][i] if P[r][i] != 0 and rng.random() < 0.5 else P[r][i] + rng.choice([-1, 1])*rng.choice([Fraction(1, 4), 1, 8])
       mats.append(P)
       mats.append([[C.dy(rng, -5, 5) for _ in range(n)] for _ in range(k)])
+      # all-integer flows inside the conduit bounds where they contain an integer (passed with an integer dtype by the oracle)
+      mats.append([[Fraction(rng.randint(math.ceil(lbx[r*n + i]), math.floor(hbx[r*n + i]))) if math.ceil(lbx[r*n + i]) <= math.floor(hbx[r*n + i])
+                    else Fraction(round(lbx[r*n + i])) for i in range(n)] for r in range(k)])
       out.append({'tree': t, 'n': n, 'probes': [[[C.fs(v) for v in row] for row in M] for M in mats],
                   'P': gen.gen_price_mat(rng, k, n), 'x': [C.fs(v) for v in x], '_flat': rng.random() < 0.5,
                   'oracle_only': window, 'reread': rng.randrange(3)})
@@ -178,6 +197,10 @@ class C17(Prop):
                           'ok' if conduit_spec(d, fmat(P), n) else 'violated', 'feasible' if dev_ok else 'infeasible',
                           '' if not t.get('ratios') else ', ratio %s %s %s' % (t['ratios'], t.get('ctype'), 'ok' if ratio_ok(fmat(P)) else 'violated'),
                           d['lb'], d['hb'], d.get('cbs'))}); break
+        # glue: the same matrix in another array form (memory order, strides, integer dtype), row-shaped prices; inputs untouched
+        f = self.forms(case, obj, dev, S, p, P, who)
+        if f:
+          fails.append(f); break
         # device-level projection: a flow of the adaptor's shape, inside the conduit bounds, whose slot totals are the wrapped
         # projection of the slot totals; an input already inside all bounds keeps its totals
         pr = np().asarray(obj.project(S), dtype=float)
@@ -211,6 +234,67 @@ class C17(Prop):
       import traceback
       fails.append({'key': {'cls': cls, 'kind': 'raised', 'exc': type(e).__name__}, 'detail': '%s: %s: %s | %s' % (who, type(e).__name__, str(e)[:200], traceback.format_exc()[-300:])})
     return fails
+
+  def forms(self, case, obj, dev, S, p, P, who):
+    n_ = np()
+    t = case['tree']; cls = t['dev']['cls']; k, n = S.shape
+    keepS = S.copy(); keepp = n_.array(p, dtype=float, copy=True)
+    hess_ok = cls not in ('SDevice', 'TDevice', 'WindowDevice') and not (cls == 'ADevice' and gen.fn_has(t['dev']['prm']['f'], 'demand'))
+    def observe(X, q):
+      cons = obj.constraints
+      out = {'cost': scalar(obj.cost(X, q)), 'deriv': n_.asarray(obj.deriv(X, q), dtype=float),
+             'cons': [scalar(c['fun'](X)) for c in cons],
+             'jac': [n_.asarray(c['jac'](X), dtype=float).reshape(-1) for c in cons if 'jac' in c]}
+      if hess_ok:
+        out['hess'] = n_.asarray(obj.hess(X), dtype=float)
+      return out
+    def differs(a, b):
+      if not close(a['cost'], b['cost']): return 'cost %.10g vs %.10g' % (a['cost'], b['cost'])
+      if a['deriv'].shape != b['deriv'].shape or not close(a['deriv'], b['deriv']): return 'deriv %s vs %s' % (a['deriv'].tolist(), b['deriv'].tolist())
+      if not close(a['cons'], b['cons']): return 'constraint values %s vs %s' % (a['cons'], b['cons'])
+      if len(a['jac']) != len(b['jac']) or not all(close(x, y) for x, y in zip(a['jac'], b['jac'])): return 'constraint Jacobians'
+      if 'hess' in a and (a['hess'].shape != b['hess'].shape or not close(a['hess'], b['hess'])): return 'hess %s vs %s' % (a['hess'].tolist(), b['hess'].tolist())
+      return None
+    base = observe(S, p)
+    if hess_ok:
+      wh = n_.asarray(dev.hess(S.sum(axis=0), 0), dtype=float)
+      if base['hess'].shape != wh.shape or not close(base['hess'], wh):
+        return {'key': {'cls': cls, 'kind': 'hess'}, 'detail': '%s: hess(S) = %s but the wrapped Hessian at the total flow is %s; S=%s' % (who, base['hess'].tolist(), wh.tolist(), json.dumps(P))}
+    variants = [('Fortran-ordered array', n_.asfortranarray(S), p)]
+    big = n_.zeros((2*k, n)); big[::2] = S
+    variants.append(('strided (non-contiguous) view', big[::2], p))
+    if n_.ndim(p) == 1:
+      variants.append(('price as a (1, n) row', S, n_.asarray(p).reshape(1, n)))
+    if n_.ndim(p) == 2:
+      variants.append(('Fortran-ordered price matrix', S, n_.asfortranarray(p)))
+    if (S == n_.round(S)).all():
+      Si = S.astype(n_.int64); ci = Si.sum(axis=0); cf = S.sum(axis=0)
+      try:   # only when the wrapped device itself does not care about the dtype of the total flow (else it is the leaf's business)
+        leaf_same = close(scalar(dev.cost(ci, 0)), scalar(dev.cost(cf, 0))) and close(dev.deriv(ci, 0), dev.deriv(cf, 0)) and \
+                    close([scalar(c['fun'](ci)) for c in dev.constraints], [scalar(c['fun'](cf)) for c in dev.constraints])
+      except Exception:
+        leaf_same = False
+      if leaf_same:
+        variants.append(('integer dtype', Si, p))
+        variants.append(('integer dtype, integer zero price', Si, 0))
+    for name, X, q in variants:
+      Xk = n_.array(X, copy=True)
+      try:
+        got = observe(X, q)
+        ref = base if q is p or n_.ndim(q) > 0 else observe(S, 0.0)
+      except Exception as e:
+        return {'key': {'cls': cls, 'kind': 'input-form', 'form': name, 'exc': type(e).__name__},
+                'detail': '%s: %s (%s) when the conduit matrix %s is passed as: %s' % (who, type(e).__name__, str(e)[:120], json.dumps(P), name)}
+      self.hist['input_forms'] = self.hist.get('input_forms', 0) + 1
+      why = differs(got, ref)
+      if why:
+        return {'key': {'cls': cls, 'kind': 'input-form', 'form': name},
+                'detail': '%s: the same conduit matrix %s passed as: %s gives a different result than as a float C-ordered array: %s (price %s)' % (who, json.dumps(P), name, why, json.dumps(case['P']))}
+      if not (n_.asarray(X) == Xk).all():
+        return {'key': {'cls': cls, 'kind': 'mutates-input', 'form': name}, 'detail': '%s: the caller\'s conduit matrix (%s) was modified' % (who, name)}
+    if not (S == keepS).all() or not (n_.asarray(p, dtype=float) == keepp).all():
+      return {'key': {'cls': cls, 'kind': 'mutates-input'}, 'detail': '%s: the caller\'s flow / price array was modified, S=%s' % (who, json.dumps(P))}
+    return None
 
   def reread(self, case, who, ratio_ok):
     """read adaptor.constraints, re-assign the wrapped device's cumulative bounds through its setter, read again: the adaptor
